@@ -288,6 +288,11 @@ theorem step_inv_rPub (s : St) (t id idx g : Nat) (h : Inv s) (ht : s.thr t = .r
         · simp only [hut, if_false] at hu; exact h.idxOk u id1 idx1 g1 hu
     · ring_fields h t
 
+theorem step_inv_rLen (s : St) (t g : Nat) (h : Inv s) (ht : s.thr t = .rLen g) :
+    Inv (step s t) := by
+  simp only [step, ht]
+  ring_fields h t
+
 theorem step_inv_rCan (s : St) (t id idx g : Nat) (h : Inv s) (ht : s.thr t = .rCan id idx g)
     (hex : s.enqTail = g + 1 → g = id) :
     Inv (step s t) := by
@@ -413,6 +418,7 @@ theorem step_inv (s : St) (t : Nat) (h : Inv s) (hex : CanExact s (.step t)) : I
   | pPublish v id len => exact step_inv_pPublish s t v id len h hl
   | pLen id => exact step_inv_pLen s t id h hl
   | rPub id idx g => exact step_inv_rPub s t id idx g h hl
+  | rLen g => exact step_inv_rLen s t g h hl
   | rCan id idx g => exact step_inv_rCan s t id idx g h hl (hex t id idx g rfl hl)
   | cFetch => exact step_inv_cFetch s t h hl
   | cLoadTail id => exact step_inv_cLoadTail s t id h hl
